@@ -26,6 +26,7 @@ func init() {
 			"R5": "see C15-R3",
 			"R6": "see C08-R2/R3",
 			"R8": "the refresh loop's ticker period is cfg.HeartbeatInterval",
+			"R9": "every function with a time.NewTicker loop that a claim-set unit starts (go) is called with a context whose context.With* ancestors include the term context (the With* call in the claim-set unit whose cancel is stored in the election object and called by every demotion, C19-R1)",
 			"R7": "from the ticker case every path to the next tick passes the goroutine issuing the refresh, an increment of a failure counter (loop-carried +1 or the health counter's Add), or a may-demote call",
 		},
 	})
@@ -320,6 +321,7 @@ func checkC03(c *Ctx) {
 		// the select's successors: walk from the block after the select, stop at counting blocks, look for the next tick
 		nTick++
 		var leak ssa.Instruction
+		doneCtx := ""
 		seen := map[*ssa.BasicBlock]bool{}
 		var walk func(b *ssa.BasicBlock, first bool)
 		walk = func(b *ssa.BasicBlock, first bool) {
@@ -349,8 +351,22 @@ func checkC03(c *Ctx) {
 					return
 				}
 			}
-			for _, sx := range liveSuccs(b) {
+			for i, sx := range b.Succs {
+				if deadEdge(b, i) {
+					continue
+				}
+				// permitted skip: the loop's own context has ended (its Done case, which this
+				// select contains, is taken next and ends the loop)
+				if l, ok := m.edgeLit(b, i); ok && !l.Truth && doneCtx != "" && l.S.Op == "bin" && l.S.Name == "==" && symMentions(l.S, "nil") && symMentions(l.S, "Context.Err("+doneCtx+")") {
+					continue
+				}
 				walk(sx, false)
+			}
+		}
+		// the context whose Done channel is a case of this select
+		for _, st := range sel.States {
+			if x := m.Sym.Of(st.Chan); x.Op == "invoke" && strings.HasSuffix(x.Name, "Context.Done") && len(x.Args) == 1 {
+				doneCtx = x.Args[0].String()
 			}
 		}
 		walk(in.Block(), true)
@@ -469,6 +485,9 @@ func checkC03(c *Ctx) {
 	// ---- R8 ---------------------------------------------------------------------
 	refreshPeriodRule(c, "R8")
 
+	// ---- R9 ---------------------------------------------------------------------
+	termLoopRule(c, "R9")
+
 	// ---- R5 (shared) ----------------------------------------------------------------
 	natsConflictRule(c, "R5")
 }
@@ -560,4 +579,101 @@ func sameLoop(a, b *ssa.BasicBlock) bool {
 		}
 	}
 	return false
+}
+
+
+// termContextCalls: the context.With* calls in the claim-set units whose cancel function is
+// stored in a field of the election object (the context of one term).
+func (m *Model) termContextCalls() []*ssa.Call {
+	var out []*ssa.Call
+	for _, unit := range m.ClaimSet {
+		eachInstr(unit, func(in ssa.Instruction) {
+			k, ok := in.(*ssa.Call)
+			if !ok {
+				return
+			}
+			f := k.Call.StaticCallee()
+			if f == nil || !strings.HasPrefix(f.String(), "context.With") {
+				return
+			}
+			if refs := k.Referrers(); refs != nil {
+				for _, r := range *refs {
+					if ex, ok := r.(*ssa.Extract); ok && ex.Index == 1 {
+						if rr := ex.Referrers(); rr != nil {
+							for _, u := range *rr {
+								if st, ok := u.(*ssa.Store); ok {
+									if _, ok := m.implField(st.Addr); ok {
+										out = append(out, k)
+									}
+								}
+							}
+						}
+					}
+				}
+			}
+		})
+	}
+	return out
+}
+
+// termLoopRule (C03-R9, shared as C12-R5 and C07-R6): the periodic loops a claim-set unit starts
+// (the refresh loop, the validation loop) run under the context of that term, which every
+// claim-clearing unit cancels (C19-R1). A loop on the election's context outlives its term; after
+// a re-election within one period it runs next to the new term's loop - two refreshers collide
+// (the loser sees a revision conflict, a permanent error, and demotes a healthy leader) and both
+// count health failures.
+func termLoopRule(c *Ctx, rule string) {
+	m := c.M
+	terms := m.termContextCalls()
+	n := 0
+	for _, sp := range m.Spawns() {
+		if !containsFn(m.ClaimSet, topFunc(sp.Fn)) {
+			continue
+		}
+		for _, t := range sp.Targets {
+			for _, g := range sortedFns(m.staticReach(t, false)) {
+				if g.Parent() != nil {
+					continue
+				}
+				hasTicker := false
+				eachInstr(g, func(in ssa.Instruction) {
+					if _, ok := isCallTo(valueOf(in), "time.NewTicker"); ok && len(cfgLoops(g)) > 0 {
+						hasTicker = true
+					}
+				})
+				if !hasTicker {
+					continue
+				}
+				// the call of g on the way from the spawned function, and its context argument
+				for _, h := range sortedFns(m.staticReach(t, false)) {
+					eachInstr(h, func(in ssa.Instruction) {
+						call, ok := in.(*ssa.Call)
+						if !ok || call.Call.StaticCallee() != g {
+							return
+						}
+						for _, a := range call.Call.Args {
+							if !isNamed(a.Type(), "context", "Context") {
+								continue
+							}
+							n++
+							chain, root := m.ctxAncestors(a)
+							ok := false
+							for _, k := range chain {
+								for _, tk := range terms {
+									if k == tk {
+										ok = true
+									}
+								}
+							}
+							c.check(ok, rule, "periodic loop "+shortFn(g)+" runs under the term context", call,
+								"context argument %s (root %s): derived from the term context created in the claim-set unit (whose cancel every demotion calls): %v. On the election's context the loop outlives its term and runs next to the next term's loop after a quick re-election.", m.Sym.Of(a), m.Sym.Of(root), ok)
+						}
+					})
+				}
+			}
+		}
+	}
+	if n < 2 {
+		c.undecided(rule, "instance-floor", nil, "only %d periodic loops started by the claim-set unit found; 2 on the reference tree (refresh, validation)", n)
+	}
 }
